@@ -117,6 +117,119 @@ def step (line : String) : String :=
       | .error .valueError => "err DXFValueError"
       | .error .zeroDivision => "err ZeroDivisionError"
     | _, _, _, _ => "bad-op"
+  | ["refine", order, ts, knots, cps] =>
+    match order.toNat?, parseRats ts, parseRats knots, parseV3s cps with
+    | some o, some ts, some k, some p =>
+      match knotRefinement k p o ts with
+      | .ok (p', k') => "ok " ++ showRats k' ++ "|" ++ showV3s p'
+      | .error .valueError => "err DXFValueError"
+      | .error .zeroDivision => "err ZeroDivisionError"
+    | _, _, _, _ => "bad-op"
+  | ["bsplit", t, pts] =>
+    match parseRat t, parseV3s pts with
+    | some t, some p =>
+      match splitBezier p t with
+      | .ok (l, r) => "ok " ++ showV3s l ++ "|" ++ showV3s r
+      | .error _ => "err ValueError"
+    | _, _ => "bad-op"
+  | ["revpt", order, u, knots, weights, cps] =>   -- BSpline.reverse().point(1 - (u - k0)/(kn - k0))
+    match order.toNat?, parseRat u, parseRats knots, parseRats weights, parseV3s cps with
+    | some o, some u, some k, some w, some p =>
+      let r := reverseSpline k w p
+      match evalPoint r.1 r.2.1 r.2.2 o (reverseParam k u) with
+      | some v => "ok " ++ showV3 v
+      | none => "err ZeroDivisionError"
+    | _, _, _, _, _ => "bad-op"
+  | ["ders", order, span, u, n, knots] =>       -- Basis.basis_funcs_derivatives(span, u, n)
+    match order.toNat?, span.toNat?, parseRat u, n.toNat?, parseRats knots with
+    | some o, some s, some u, some n, some k =>
+      match basisFuncsDerivatives k o s u n with
+      | some rows => "ok " ++ ";".intercalate (rows.map showRats)
+      | none => "err ZeroDivisionError"
+    | _, _, _, _, _ => "bad-op"
+  | ["deriv", order, u, n, knots, weights, cps] =>   -- Evaluator.derivative(u, n)
+    match order.toNat?, parseRat u, n.toNat?, parseRats knots, parseRats weights, parseV3s cps with
+    | some o, some u, some n, some k, some w, some p =>
+      match evalDerivative k w p o u n with
+      | some vs => "ok " ++ showV3s vs
+      | none => "err ZeroDivisionError"
+    | _, _, _, _, _, _ => "bad-op"
+  | ["split", order, t, knots, cps] =>
+    match order.toNat?, parseRat t, parseRats knots, parseV3s cps with
+    | some o, some t, some k, some p =>
+      match splitBSpline k p o t with
+      | .ok (s1, s2) => "ok " ++ showRats s1.2 ++ "|" ++ showV3s s1.1 ++ "|" ++ showRats s2.2 ++ "|" ++ showV3s s2.1
+      | .error .valueError => "err ValueError"
+      | .error .dxfValueError => "err DXFValueError"
+      | .error .zeroDivision => "err ZeroDivisionError"
+    | _, _, _, _ => "bad-op"
+  | ["b2b", curves] =>      -- curvetools.bezier_to_bspline: curves separated by ';', 3 or 4 points each
+    let parseCurve (c : String) : Option Bez4 :=
+      match parseV3s c with
+      | some [p0, p1, p2, p3] => some ⟨p0, p1, p2, p3⟩
+      | some [p0, p1, p2] => some (quadToCubic ⟨p0, p1, p2⟩)
+      | _ => none
+    match (if curves.isEmpty then some [] else (curves.splitOn ";").mapM parseCurve) with
+    | some cs =>
+      match bezierToBSpline cs with
+      | some (p, k) => "ok " ++ showRats k ++ "|" ++ showV3s p
+      | none => "err ValueError"
+    | none => "bad-op"
+  | ["insr", order, t, knots, weights, cps] =>    -- BSpline._insert_knot_rational
+    match order.toNat?, parseRat t, parseRats knots, parseRats weights, parseV3s cps with
+    | some o, some t, some k, some w, some p =>
+      match insertKnotRational k w p o t with
+      | .ok (p', w', k') => "ok " ++ showRats k' ++ "|" ++ showRats w' ++ "|" ++ showV3s p'
+      | .error .valueError => "err DXFValueError"
+      | .error .zeroDivision => "err ZeroDivisionError"
+    | _, _, _, _, _ => "bad-op"
+  | ["bvec", order, count, u, knots, weights] =>    -- Basis.basis_vector(u)
+    match order.toNat?, count.toNat?, parseRat u, parseRats knots, parseRats weights with
+    | some o, some c, some u, some k, some w =>
+      match basisVector k w o c u with
+      | some v => "ok " ++ showRats v
+      | none => "err ZeroDivisionError"
+    | _, _, _, _, _ => "bad-op"
+  | ["bezn", t, pts] =>       -- generic Bezier class: point and derivative
+    match parseRat t, parseV3s pts with
+    | some t, some p =>
+      match bezierPoint p t, bezierDerivative p t with
+      | some v, some (a, b, c) => "ok " ++ showV3 v ++ ";" ++ showV3 a ++ ";" ++ showV3 b ++ ";" ++ showV3 c
+      | _, _ => "err ValueError"
+    | _, _ => "bad-op"
+  | ["refiner", order, ts, knots, weights, cps] =>
+    match order.toNat?, parseRats ts, parseRats knots, parseRats weights, parseV3s cps with
+    | some o, some ts, some k, some w, some p =>
+      match knotRefinementRational k w p o ts with
+      | .ok (p', w', k') => "ok " ++ showRats k' ++ "|" ++ showRats w' ++ "|" ++ showV3s p'
+      | .error .valueError => "err DXFValueError"
+      | .error .zeroDivision => "err ZeroDivisionError"
+    | _, _, _, _, _ => "bad-op"
+  | ["beznx", t, pts, mat] =>   -- generic Bezier class: reverse().point(t) and transform(m).point(t)
+    match parseRat t, parseV3s pts, parseAffine mat with
+    | some t, some p, some m =>
+      match bezierPoint p.reverse t, bezierPoint (p.map m.apply) t with
+      | some a, some b => "ok " ++ showV3 a ++ ";" ++ showV3 b
+      | _, _ => "err ValueError"
+    | _, _, _ => "bad-op"
+  | ["kvec", kind, count, order, norm] =>     -- open_uniform_knot_vector / uniform_knot_vector
+    match count.toNat?, order.toNat? with
+    | some c, some o =>
+      match kind with
+      | "open" => showRats (openUniformKnots c o (norm == "1"))
+      | "uniform" => showRats (uniformKnots c o (norm == "1"))
+      | _ => "bad-op"
+    | _, _ => "bad-op"
+  | ["splitr", order, t, knots, weights, cps] =>
+    match order.toNat?, parseRat t, parseRats knots, parseRats weights, parseV3s cps with
+    | some o, some t, some k, some w, some p =>
+      match splitBSplineRational k w p o t with
+      | .ok (s1, s2) => "ok " ++ showRats s1.2.2 ++ "|" ++ showRats s1.2.1 ++ "|" ++ showV3s s1.1 ++ "|" ++
+          showRats s2.2.2 ++ "|" ++ showRats s2.2.1 ++ "|" ++ showV3s s2.1
+      | .error .valueError => "err ValueError"
+      | .error .dxfValueError => "err DXFValueError"
+      | .error .zeroDivision => "err ZeroDivisionError"
+    | _, _, _, _, _ => "bad-op"
   | ["revk", knots] =>
     match parseRats knots with
     | some k => showRats (reverseKnots k)
